@@ -6,7 +6,7 @@
    option independence, round trip, re-serialization and des-ser-des stability are derived from that.  Nothing is by reflexivity on
    a definition that ignores its arguments: every equality below goes through a refinement theorem and its side conditions. *)
 From Verif Require Import Wire WireThm WireThmRt WireThmExt WireThmValid TargetsC03 TargetPreThm WireThmC03.
-From Verif Require Import Walker WalkerBound RefineSerBits ObsC03.
+From Verif Require Import Walker WalkerBound RefineSerBits WalkerSafeThm ObsC03.
 From Coq Require Import Lia ZifyBool ZifyNat ZifyN.
 Local Open Scope nat_scope.
 Ltac Zify.zify_post_hook ::= Z.div_mod_to_equations.
@@ -29,6 +29,21 @@ Proof.
   destruct (des_spec t bits) as [[v c]|e] eqn:E; [|reflexivity].
   pose proof (des_consumed_le t bits v c E) as H. unfold des_asserts.
   assert (H1 : (8 * c <=? length bits) = true) by (apply Nat.leb_le; exact H). rewrite H1. cbn [negb]. rewrite andb_false_r. reflexivity.
+Qed.
+
+(* ---------- DOMAIN of the assertion claims (audit3 D3).  C03's observables are built on WalkerSafe.std_cfg: the up-front capacity test
+   of _serialize_impl is compiled in and no array capacity is overridden, i.e. enable_override_variable_array_capacity is off, or on
+   without any -D..._ARRAY_CAPACITY_ macro (the only way the check builds it).  With a reduced capacity macro the test is compiled out
+   and the INNER assertion of _serialize_any aborts on a valid call: that configuration is outside every statement of C03 (C04 models
+   it).  Inside the domain also the inner assertion never fires: C04's theorem for the access-logging walker, instantiated. ---------- *)
+Theorem obs_cfg_domain : forall l, up_front (std_cfg l) = true /\ (forall e n, ov (std_cfg l) e n = n) /\ little (std_cfg l) = l.
+Proof. intros l. repeat split. Qed.
+
+Theorem inner_ser_assert_never_fires : forall l t o capB, wf_ty t = true -> align t = 8 ->
+  fst (walk_ser_safe (std_cfg l) t o capB) <> Err EAssert.
+Proof.
+  intros l t o capB Hwf Ha. apply ser_asserts_never_fire_checked; try assumption; try reflexivity.
+  right. intros e n. apply le_n.
 Qed.
 
 (* ---------- each observable IS the specification (applied to the target's pre-adjusted value) ---------- *)
